@@ -35,6 +35,16 @@ type multi struct {
 	Cls   []string `json:"cls"`
 	Mode  int      `json:"mode"`
 	Prior string   `json:"prior,omitempty"`
+	// Seq, when present, is the whole call sequence for this key at this level (Mode is ignored):
+	// Add / Set / Add-map / Set-map calls in this order. Vs is what the documentation makes of it:
+	// Add appends, Set replaces every previous value of the key at this level.
+	Seq      []seqStep `json:"seq,omitempty"`
+	SeqClass string    `json:"seq_class,omitempty"`
+}
+
+type seqStep struct {
+	Op   string   `json:"op"` // add | set | addmap | setmap
+	Vals []string `json:"vals"`
 }
 
 type single struct {
@@ -62,7 +72,10 @@ type fileSpec struct {
 	Field   string `json:"field,omitempty"` // "" = not set
 	Name    string `json:"name"`
 	Content string `json:"content"`
-	Via     int    `json:"via"` // 0 AddFileWithReader, 1 AddFile(path), 2 AddFiles(AcquireFile(...))
+	// Via: 0 AddFileWithReader(name, r); 1 AddFile(path); 2 AddFiles(AcquireFile(name, reader));
+	// 3 AddFiles(AcquireFile(name, path)) - name and path differ; 4 AddFiles(AcquireFile(path))
+	Via      int    `json:"via"`
+	DiskName string `json:"disk_name,omitempty"`
 }
 
 const (
@@ -162,6 +175,11 @@ func genMultis(r *gen.Rand, n int, comp int, keyf func(i int) string, allowMulti
 			m.Vs = append(m.Vs, v.S)
 			m.Cls = append(m.Cls, v.Class)
 		}
+		if r.Chance(1, 4) {
+			genSeq(r, &m, comp, allowMulti)
+			out = append(out, m)
+			continue
+		}
 		if nv == 1 {
 			m.Mode = []int{0, 1, 2, 2, 3, 4}[r.Intn(6)]
 			if m.Mode == 4 {
@@ -173,6 +191,42 @@ func genMultis(r *gen.Rand, n int, comp int, keyf func(i int) string, allowMulti
 		out = append(out, m)
 	}
 	return out
+}
+
+// genSeq replaces the one-shot form of a key by a sequence of 2-4 Add/Set calls and computes the
+// documented outcome.
+func genSeq(r *gen.Rand, m *multi, comp int, allowMulti bool) {
+	m.Vs, m.Cls, m.Seq, m.Mode = nil, nil, nil, 9
+	n := r.Range(2, 4)
+	m.SeqClass = "call-sequence"
+	for i := 0; i < n; i++ {
+		op := gen.Pick(r, []string{"add", "add", "set", "addmap", "setmap"})
+		if !allowMulti && (op == "add" || op == "addmap") && len(m.Vs) > 0 {
+			op = "set"
+		}
+		st := seqStep{Op: op}
+		k := 1
+		if op == "addmap" && allowMulti {
+			k = r.Range(1, 3)
+		}
+		var cls []string
+		for j := 0; j < k; j++ {
+			v := genVal(r, comp, true)
+			st.Vals = append(st.Vals, v.S)
+			cls = append(cls, v.Class)
+		}
+		switch op {
+		case "add", "addmap":
+			m.Vs = append(m.Vs, st.Vals...)
+			m.Cls = append(m.Cls, cls...)
+		default:
+			if len(m.Vs) >= 2 {
+				m.SeqClass = "set-over-multiple-values"
+			}
+			m.Vs, m.Cls = []string{st.Vals[0]}, []string{cls[0]}
+		}
+		m.Seq = append(m.Seq, st)
+	}
 }
 
 func genSingles(r *gen.Rand, keys []string, comp int, allowEmpty bool) []single {
@@ -437,11 +491,16 @@ func genConfig(r *gen.Rand) *config {
 					cf.Form[i].Vs[j] = strings.NewReplacer("\r", "_", "\n", "_").Replace(v)
 				}
 				cf.Form[i].Prior = strings.NewReplacer("\r", "_", "\n", "_").Replace(cf.Form[i].Prior)
+				for j := range cf.Form[i].Seq {
+					for k, v := range cf.Form[i].Seq[j].Vals {
+						cf.Form[i].Seq[j].Vals[k] = strings.NewReplacer("\r", "_", "\n", "_").Replace(v)
+					}
+				}
 			}
 		}
 		n := r.Range(1, 3)
 		for i := 0; i < n; i++ {
-			f := fileSpec{Via: r.Intn(3)}
+			f := fileSpec{Via: r.Intn(4)}
 			f.Content = string(r.Bytes(r.Range(0, 300)))
 			switch r.Intn(3) {
 			case 0:
@@ -455,7 +514,15 @@ func genConfig(r *gen.Rand) *config {
 				// a real file: keep the name a plain file name
 				f.Name = "f" + strconv.Itoa(i) + r.Ident(1, 5) + ".dat"
 			}
-			if f.Via == 2 {
+			if f.Via == 3 {
+				// explicit name AND a path (no reader): the explicit name names the part, the file
+				// on disk is called differently
+				f.DiskName = "d" + strconv.Itoa(i) + r.Ident(1, 5) + ".bin"
+			}
+			if f.Via == 1 && r.Bool() {
+				f.Via = 4 // path only, through AddFiles(AcquireFile(SetFilePath))
+			}
+			if f.Via >= 2 {
 				if r.Chance(2, 3) {
 					f.Field = gen.Pick(r, []string{"upload", "doc", "file", "a b", "fé"})
 				}
@@ -478,6 +545,7 @@ func (cf *config) toConfigStyle() {
 			ms[i].Cls = ms[i].Cls[:1]
 			ms[i].Mode = 2
 			ms[i].Prior = ""
+			ms[i].Seq, ms[i].SeqClass = nil, ""
 		}
 		return ms
 	}
@@ -548,6 +616,21 @@ func applyMultis(ms []multi, api hdrAPI) {
 		api.setMap(setm)
 	}
 	for _, m := range ms {
+		for _, st := range m.Seq {
+			switch st.Op {
+			case "add":
+				api.add(m.K, st.Vals[0])
+			case "set":
+				api.set(m.K, st.Vals[0])
+			case "addmap":
+				api.addMap(map[string][]string{m.K: append([]string(nil), st.Vals...)})
+			case "setmap":
+				api.setMap(map[string]string{m.K: st.Vals[0]})
+			}
+		}
+		if len(m.Seq) > 0 {
+			continue
+		}
 		switch m.Mode {
 		case 0:
 			for _, v := range m.Vs {
@@ -737,16 +820,25 @@ func (b *builder) send(cf *config) sendResult {
 }
 
 func (b *builder) filePath(f fileSpec) string {
-	p := filepath.Join(b.dir, f.Name)
+	n := f.Name
+	if f.DiskName != "" {
+		n = f.DiskName
+	}
+	p := filepath.Join(b.dir, n)
 	_ = os.WriteFile(p, []byte(f.Content), 0o600)
 	return p
 }
 
 func (b *builder) acquireFile(f fileSpec) *client.File {
-	if f.Via == 1 {
-		return client.AcquireFile(client.SetFilePath(b.filePath(f)))
+	var set []client.SetFileFunc
+	switch f.Via {
+	case 1, 4:
+		set = []client.SetFileFunc{client.SetFilePath(b.filePath(f))}
+	case 3:
+		set = []client.SetFileFunc{client.SetFileName(f.Name), client.SetFilePath(b.filePath(f))}
+	default:
+		set = []client.SetFileFunc{client.SetFileName(f.Name), client.SetFileReader(io.NopCloser(strings.NewReader(f.Content)))}
 	}
-	set := []client.SetFileFunc{client.SetFileName(f.Name), client.SetFileReader(io.NopCloser(strings.NewReader(f.Content)))}
 	if f.Field != "" {
 		set = append(set, client.SetFileFieldName(f.Field))
 	}
@@ -844,6 +936,7 @@ func judgeMulti(comp string, cl, rq []multi, extra []kv, got []kv, fold bool, ex
 	type exp struct {
 		vals, cls    []string
 		nCl, nRq     int
+		clSeq, rqSeq string // class of the call sequence that built the key at each level
 		clVals, rqVs []string
 	}
 	want := map[string]*exp{}
@@ -869,6 +962,9 @@ func judgeMulti(comp string, cl, rq []multi, extra []kv, got []kv, fold bool, ex
 		e.cls = append(e.cls, m.Cls...)
 		e.nCl += len(m.Vs)
 		e.clVals = append(e.clVals, m.Vs...)
+		if m.SeqClass != "" {
+			e.clSeq = m.SeqClass
+		}
 	}
 	for _, m := range rq {
 		e := get(m.K)
@@ -876,6 +972,9 @@ func judgeMulti(comp string, cl, rq []multi, extra []kv, got []kv, fold bool, ex
 		e.cls = append(e.cls, m.Cls...)
 		e.nRq += len(m.Vs)
 		e.rqVs = append(e.rqVs, m.Vs...)
+		if m.SeqClass != "" {
+			e.rqSeq = m.SeqClass
+		}
 	}
 	gotBy := map[string][]string{}
 	var gotOrder []string
@@ -900,6 +999,29 @@ func judgeMulti(comp string, cl, rq []multi, extra []kv, got []kv, fold bool, ex
 			continue
 		}
 		cls := worstClass(e.vals, e.cls, g, len(e.vals) > 1)
+		if e.clSeq != "" || e.rqSeq != "" {
+			// the key was built by a sequence of Add/Set calls: that, and the level, is the class
+			switch {
+			case e.rqSeq == "":
+				cls = e.clSeq + "|client-level"
+			case e.clSeq == "":
+				cls = e.rqSeq + "|request-level"
+			default:
+				// sequences at both levels: whose earlier values are the surplus ones?
+				switch lv := surplusLevel(e.vals, g, seqOf(cl, k, fold), seqOf(rq, k, fold)); lv {
+				case "client-level":
+					cls = e.clSeq + "|" + lv
+				case "request-level":
+					cls = e.rqSeq + "|" + lv
+				default:
+					cls = e.clSeq + "|" + lv
+					if e.rqSeq == "set-over-multiple-values" {
+						cls = e.rqSeq + "|" + lv
+					}
+				}
+			}
+			det["sequence"] = map[string]any{"client": seqOf(cl, k, fold), "request": seqOf(rq, k, fold)}
+		}
 		out = append(out, finding{"fidelity|" + comp + "|" + manner(e.vals, g) + "|" + cls,
 			fmt.Sprintf("%s %q did not arrive with the configured value(s)", comp, k), det})
 	}
@@ -917,6 +1039,59 @@ func judgeMulti(comp string, cl, rq []multi, extra []kv, got []kv, fold bool, ex
 
 // pathWith composes the path. mode 0: request level wins (the documented rule); 1: client level
 // wins; 2: request level wins unless its value is empty (classification of observed failures).
+// surplusLevel attributes the values that arrived beyond the expected ones to the call sequence
+// (client or request level) they were once given in.
+func surplusLevel(want, got []string, clSeq, rqSeq []seqStep) string {
+	left := append([]string(nil), got...)
+	for _, w := range want {
+		for i, g := range left {
+			if g == w {
+				left = append(left[:i], left[i+1:]...)
+				break
+			}
+		}
+	}
+	in := func(seq []seqStep, v string) bool {
+		for _, st := range seq {
+			for _, x := range st.Vals {
+				if x == v {
+					return true
+				}
+			}
+		}
+		return false
+	}
+	c, r := 0, 0
+	for _, v := range left {
+		if in(clSeq, v) {
+			c++
+		}
+		if in(rqSeq, v) {
+			r++
+		}
+	}
+	switch {
+	case len(left) > 0 && c == len(left) && r < len(left):
+		return "client-level"
+	case len(left) > 0 && r == len(left) && c < len(left):
+		return "request-level"
+	}
+	return "both-levels"
+}
+
+func seqOf(ms []multi, k string, fold bool) []seqStep {
+	for _, m := range ms {
+		mk := m.K
+		if fold {
+			mk = strings.ToLower(mk)
+		}
+		if mk == k {
+			return m.Seq
+		}
+	}
+	return nil
+}
+
 func (cf *config) pathWith(mode int) string {
 	val := func(name string) (string, bool) {
 		var a, b []single
@@ -1188,6 +1363,9 @@ func (cf *config) judge(p *parsed) []finding {
 			cls := classOf(f.Name)
 			if f.Field != "" && classOf(f.Field) != clPlain {
 				cls = "field-" + classOf(f.Field)
+			}
+			if f.Via == 3 {
+				cls = "explicit-name-with-path"
 			}
 			out = append(out, finding{"fidelity|file|missing-or-altered|" + cls, "file part did not arrive with name, field and content",
 				map[string]any{"index": i, "field": f.Field, "name": strconv.QuoteToASCII(f.Name), "hash": h, "size": len(f.Content), "received": p.Files}})
